@@ -32,3 +32,22 @@ static void li_vd(const double* in, double* out) {
 }
 extern "C" void verif_li_vd_ext(const double* in, double* out) { li_vd<true>(in, out); }
 extern "C" void verif_li_vd_clamp(const double* in, double* out) { li_vd<false>(in, out); }
+
+// larger tables (the searches - lower_bound, findIndex - take their general paths): NN nodes
+constexpr std::size_t NN = 12;
+// in = [x, x0, y0, d0, ..., x11, y11, d11]
+extern "C" void verif_cs_vd_ext_n(const double* in, double* out) {
+  std::array<Pt, NN> p;
+  for (std::size_t i = 0; i != NN; ++i) p[i] = Pt{in[1 + 3 * i], in[2 + 3 * i], in[3 + 3 * i]};
+  const auto r = computeCubicSplineInterpolationAndDerivative<true>(p, in[0]);
+  out[0] = r.first;
+  out[1] = r.second;
+}
+// in = [a, x0..x11, v0..v11]
+extern "C" void verif_li_vd_ext_n(const double* in, double* out) {
+  std::array<double, NN> x, v;
+  for (std::size_t i = 0; i != NN; ++i) { x[i] = in[1 + i]; v[i] = in[1 + NN + i]; }
+  const auto r = computeLinearInterpolationAndDerivative<true>(x, v, in[0]);
+  out[0] = r.first;
+  out[1] = r.second;
+}
